@@ -5,7 +5,7 @@
    executions of TLC-generated scenarios by harness/backend_drv.c in "real"
    mode.  Event kinds:
      reset                      a new execution starts (fresh base, fresh fds)
-     add{ev,fd,m,et} del{ev} close{fd} reopen{fd} env{a,fd}
+     add{ev,fd,m,et} del{ev} close{fd} reopen{fd} env{a,fd} reinit
      wait{p,p2,rep,cb}          one loop iteration: probes of every fd before and
                                 after, what the kernel reported, the callbacks
    Every event is replayed with the step functions of Backend.tla (so that the
@@ -34,6 +34,7 @@ Step ==
        [] t.e = "del"    -> st' = DelStep(st, t.ev).s /\ UNCHANGED scen
        [] t.e = "close"  -> st' = CloseStep(st, t.fd) /\ UNCHANGED scen
        [] t.e = "reopen" -> st' = ReopenStep(st, t.fd) /\ UNCHANGED scen
+       [] t.e = "reinit" -> st' = ReinitStep(st) /\ UNCHANGED scen
        [] t.e = "env"    -> /\ Assert(EnvLegal(st, t.a, t.fd), <<"illegal env op in trace", l>>)
                             /\ st' = EnvStep(st, t.a, t.fd) /\ UNCHANGED scen
        [] t.e = "wait"   -> LET S == PreWait(st)
